@@ -3,221 +3,334 @@
 
   Everything here is about the model (Ipv8/C11/Model.lean) and the definitions regenerated from the source
   (Ipv8/C11/GenOverlays.lean); the tie to the Python code is the translator plus the correspondence run of harness/c11.py.
+  What is NOT in the model (packets, handlers' bodies, kernel sockets, the interleaving of handlers with the awaits of
+  `unload` beyond socket acquisition) is only observed on the real code by the scenario oracle — see design.d/C11.md.
 -/
 import Ipv8.C11.Model
 import Ipv8.C11.Lemmas
 import Ipv8.C11.GenOverlays
 namespace Ipv8.C11
 
-/-! ## 1. The listener registry -/
+/-! ## 1. The listener registry, the proxy and the endpoint's back reference -/
 
 /-- **silent_after_unload** — for every registry history (any world `w`), once `remove_listener(o)` has run — through the
-    plain endpoint, or through a TunnelEndpoint that forwards removals — and no proxy hands packets to `o`, then after
-    ANY later sequence of registry operations by other parties (unbounded), a datagram of ANY prefix reaches neither
-    `o` nor a listener that forwards to `o`. -/
+    plain endpoint, or through a TunnelEndpoint that forwards removals —, no proxy hands packets to `o` and the
+    TunnelEndpoint does not refer to `o`, then after ANY later sequence of registry operations by other parties
+    (unbounded), `o` cannot be made to run: not by a datagram of ANY prefix from the socket (`Endpoint.notify_listeners`),
+    not by a datagram delivered from a tunnel (`TunnelEndpoint.notify_listeners`, either `from_tunnel` value), not through
+    a proxy, and not by another overlay's anonymised send (`TunnelEndpoint.send` → `tunnel_community`). -/
 theorem silent_after_unload (w : World) (o : Lid) (viaOuter : Bool) (ops : List ROp) (p : Pfx)
     (hstack : viaOuter = true → w.fwdRemove = true)
     (hfwd : NoFwdTo o w)
+    (href : w.tunnelRef ≠ some o)
     (hops : ∀ op ∈ ops, Foreign o op) :
-    o ∉ ((w.step (.remove viaOuter o)).run ops).reach p := by
-  apply silent_reach
+    o ∉ ((w.step (.remove viaOuter o)).run ops).touched p := by
+  apply silent_touched
   apply silent_run ops _ hops
-  refine ⟨?_, ?_⟩
+  refine ⟨?_, ?_, ?_⟩
   · cases viaOuter
     · exact absent_remove_self o w.inner
     · simp only [World.step, hstack rfl, if_true]; exact absent_remove_self o w.inner
   · intro e he
     rw [(step_remove_fwd w viaOuter o).1] at he
     exact hfwd e he
+  · rw [(step_remove_fwd w viaOuter o).2.2]; exact href
 
-/-- the hypotheses of `silent_after_unload` are satisfiable by a non-trivial history: an overlay that was a generic and
-    a prefix listener, foreign listeners coming and going afterwards -/
+/-- the hypotheses are satisfiable by a non-trivial history: an overlay that was a generic and a prefix listener,
+    foreign listeners (one of them anonymised, one a proxy) coming and going afterwards -/
 example : (1 : Lid) ∉ (((({ } : World).run [.add true 1, .addPrefix true 1 7, .add false 2]).step (.remove true 1)).run
-    [.addPrefix false 2 7, .add false 3, .remove false 2, .setFwd 5 3]).reach 7 := by decide
+    [.addPrefix false 2 7, .add false 3, .setAnon 3 true, .remove false 2, .setFwd 5 3, .setRef (some 3)]).touched 7 := by decide
 
-/-- what goes wrong without the forwarding (the defect of the unrepaired TunnelEndpoint): the hypothesis `hstack` cannot
-    be dropped -/
-example : (1 : Lid) ∈ (((({ fwdRemove := false } : World).run [.add true 1]).step (.remove true 1))).reach 7 := by decide
+/-- without the forwarding of `remove_listener` (the unrepaired TunnelEndpoint) `hstack` cannot be dropped -/
+example : (1 : Lid) ∈ (((({ fwdRemove := false } : World).run [.add true 1]).step (.remove true 1))).touched 7 := by decide
 
-/-- and a proxy that still forwards reaches the overlay although the overlay itself was removed (`hfwd` is needed) -/
+/-- a proxy that still forwards reaches the overlay although the overlay itself was removed (`hfwd` is needed) -/
 example : (1 : Lid) ∈ (((({ } : World).run [.addPrefix false 1 7, .addPrefix false 5 7, .setFwd 5 1]).step
-    (.remove false 1))).reach 7 := by decide
+    (.remove false 1))).touched 7 := by decide
+
+/-- and a TunnelEndpoint that still refers to the overlay lets other overlays' anonymised sends drive it (`href` is
+    needed; this was the state the unrepaired `TunnelCommunity.unload` left) -/
+example : (1 : Lid) ∈ (((({ } : World).run [.addPrefix true 1 7, .setRef (some 1)]).step (.remove true 1))).touched 9 := by decide
 
 /-! ## 2. The generated facts about the source -/
 
-/-- TunnelEndpoint forwards both directions of listener management (regenerated from anonymization/endpoint.py) -/
+/-- TunnelEndpoint forwards both directions of listener management (regenerated from anonymization/endpoint.py; a method
+    that is defined but is not a plain forward is rejected by the translator, so this can only fail for a deleted method) -/
 theorem tunnel_endpoint_forwards_listener_ops :
     Gen.tunnelEndpointForwardsAdd = true ∧ Gen.tunnelEndpointForwardsRemove = true := by decide
 
-/- (not an obligation of C11) `∀ k delay, Gen.removalSleeps k true delay = false` — "remove_now removes now" — holds for the
-   repaired remove_* tasks; since TunnelCommunity.unload releases what cancelled removal tasks leave behind, C11 does
-   not depend on it: `unload_releases_everything` below holds for every sleep guard `sl`. -/
-
-/-- syntactic check of an unload script: every teardown step that the class needs occurs in it -/
+/-- Check of an unload script.  It is ORDER-sensitive where the code is: the exit-socket sweep has to come after the
+    task-manager shutdown (handlers that are still in flight can open sockets while `unload` is suspended).  Required:
+    stop listening, shut the task manager down, unload the bootstrappers, shut the request cache down / close the
+    database if the class owns one; a class that installs a proxy also removes it, clears both back references and sweeps
+    its exit sockets after the shutdown.  (Not required, because not a resource in the sense of the property: clearing
+    the tunnel tables; the theorem below still says what those statements achieve when they are present.) -/
 def scriptOk (c : ClassInfo) : Bool :=
-  c.script.contains .removeSelf && c.script.contains .tmShutdown
+  c.script.contains .removeSelf && c.script.contains .tmShutdown && c.script.contains .unloadBootstrappers
   && (!c.hasCache || c.script.contains .cacheShutdown)
+  && (!c.hasDb || c.script.contains .closeDb)
   && (!c.installsProxy || (c.script.contains .removeProxy && c.script.contains .clearFwd
-        && c.script.contains .closeExitSockets))
+        && c.script.contains .clearEndpointRef && (afterTm c.script).contains .closeExitSockets))
 
-/-- every shipped overlay class (list regenerated from the source) has a complete unload script -/
+/-- every shipped overlay class (list regenerated from the source) has a complete, correctly ordered unload script -/
 theorem all_unload_scripts_complete : ∀ c ∈ Gen.classes, scriptOk c = true := by decide
 
 /-- the class list is not empty and contains the tunnel overlays (non-vacuity of the quantifier above) -/
-example : Gen.classes.length ≥ 8 ∧ (Gen.classes.any (fun c => c.installsProxy)) = true := by decide
+example : Gen.classes.length ≥ 8 ∧ (Gen.classes.any (fun c => c.installsProxy)) = true ∧
+    (Gen.classes.any (fun c => c.hasDb)) = true := by decide
 
-/-! ## 3. Unload scripts: for every state of the overlay -/
+/-! ## 3. Unload scripts: for every state of the overlay and every schedule of late socket acquisitions -/
 
-/-- **unload_releases_everything** — for every class with a complete script and EVERY state in which unload is requested
-    (any registry contents, any number of circuits / relays / exit sockets, any unfinished removal tasks, any
-    `remove_tunnel_delay`, plain or wrapped endpoint): after the script has run the overlay is unreachable in the
-    registry, its task manager and request cache are shut down, no removal task is left, and (tunnel overlays) no exit
-    socket is open; and whatever table-clearing / database-closing statements the script contains have taken effect. -/
-theorem unload_releases_everything (c : ClassInfo) (hc : scriptOk c = true) (sl : RemKind → Bool → Bool) (s : UState)
+/-- **unload_releases_everything** — for every class with an accepted script, EVERY state in which unload is requested
+    (any registry contents, any number of circuits / relays / exit sockets, any unfinished removal tasks, any sleep
+    guard of the removal tasks, plain or forwarding-wrapped endpoint) and EVERY adversary `acq` that lets in-flight
+    handlers open further exit sockets at each statement at which `unload` is suspended while the task manager is
+    still up: after the script the overlay cannot be made to run (`Silent`, hence theorem 1 applies), its task manager is
+    down, no removal task is left, the bootstrappers are unloaded, the cache is down and the database closed if it has
+    one, and a tunnel overlay has NO open exit socket.  Table-clearing statements after the shutdown have taken effect. -/
+theorem unload_releases_everything (c : ClassInfo) (hc : scriptOk c = true) (sl : RemKind → Bool → Bool)
+    (acq : Nat → Nat) (s : UState)
     (hstack : s.viaOuter = true → s.w.fwdRemove = true)
-    (hfwd : ∀ e ∈ s.w.fwd, e.2 = s.self → (c.installsProxy = true ∧ e.1 = s.proxy)) :
-    let s' := s.run sl c.script
-    Silent s.self s'.w ∧ s'.tmDown = true ∧ s'.removals = [] ∧ (c.hasCache = true → s'.cacheDown = true) ∧
+    (hfwd : ∀ e ∈ s.w.fwd, e.2 = s.self → (c.installsProxy = true ∧ e.1 = s.proxy))
+    (href : s.w.tunnelRef = some s.self → c.installsProxy = true) :
+    let s' := s.run sl acq c.script
+    Silent s.self s'.w ∧ s'.tmDown = true ∧ s'.removals = [] ∧ s'.bootDown = true ∧
+    (c.hasCache = true → s'.cacheDown = true) ∧ (c.hasDb = true → s'.dbClosed = true) ∧
     (c.installsProxy = true → s'.openExit = 0) ∧
-    (UOp.closeDb ∈ c.script → s'.dbClosed = true) ∧
-    (UOp.clearTable .remCircuit ∈ c.script → s'.circuits = 0) ∧ (UOp.clearTable .remRelay ∈ c.script → s'.relays = 0) ∧
-    (UOp.clearTable .remExit ∈ c.script → s'.exits = 0) := by
+    (UOp.clearTable .remExit ∈ afterTm c.script → s'.exits = 0) ∧
+    (UOp.clearTable .remCircuit ∈ c.script → s'.circuits = 0) ∧ (UOp.clearTable .remRelay ∈ c.script → s'.relays = 0) := by
   intro s'
   simp only [scriptOk, Bool.and_eq_true, Bool.or_eq_true, Bool.not_eq_true', List.contains_iff_mem] at hc
-  obtain ⟨⟨⟨hself, htm⟩, hcache⟩, hproxy⟩ := hc
+  obtain ⟨⟨⟨⟨⟨hself, htm⟩, hboot⟩, hcache⟩, hdb⟩, hproxy⟩ := hc
+  have P := fun (t : UState) (a : UOp) => step_proj sl acq t a
   have hframe : UFrame s.self s.proxy s := by
     refine ⟨rfl, rfl, hstack, ?_⟩
     intro e he h2; exact (hfwd e he h2).2
-  have hI := fun (t : UState) (a : UOp) (h : UFrame s.self s.proxy t) => uframe_step sl s.self s.proxy t a h
-  -- Absent
-  have habs : Absent s.self s'.w.inner :=
-    foldl_establish (UState.step sl) (UFrame s.self s.proxy) (fun t => Absent s.self t.w.inner) .removeSelf hI
-      (fun t a _ h => absent_ustep sl s.self t a h)
-      (fun t ht => by
-        obtain ⟨h1, _, h3, _⟩ := ht
-        simp only [UState.step, h1]
-        cases hv : t.viaOuter
-        · exact absent_remove_self s.self t.w.inner
-        · simp only [World.step, h3 hv, if_true]; exact absent_remove_self s.self t.w.inner)
-      c.script s hframe hself
-  -- no forwarder
+  have hI : ∀ (t : UState) (a : UOp), UFrame s.self s.proxy t → UFrame s.self s.proxy (t.step sl acq a) := by
+    intro t a h
+    have c0 := uframe_step sl s.self s.proxy t a h
+    obtain ⟨c1, c2, c3, c4⟩ := c0
+    have p := P t a
+    exact ⟨p.2.1.trans c1, p.2.2.1.trans c2, by rw [p.1, p.2.2.2.1]; exact c3, by rw [p.1]; exact c4⟩
+  have est : ∀ (I Q : UState → Prop) (a₀ : UOp), (∀ (t : UState) (a : UOp), I t → I (t.step sl acq a)) →
+      (∀ (t : UState) (a : UOp), I t → Q t → Q (t.step sl acq a)) → (∀ t : UState, I t → Q (t.step sl acq a₀)) → I s →
+      a₀ ∈ c.script → Q s' :=
+    fun I Q a₀ h1 h2 h3 hi hm => foldl_establish (UState.step sl acq) I Q a₀ h1 h2 h3 c.script s hi hm
+  -- the overlay is out of the registry
+  have habs : Absent s.self s'.w.inner := by
+    refine est (UFrame s.self s.proxy) (fun t => Absent s.self t.w.inner) .removeSelf hI ?_ ?_ hframe hself
+    · intro t a _ h; rw [(P t a).1]; exact absent_ustep sl s.self t a h
+    · intro t ht
+      obtain ⟨h1, _, h3, _⟩ := ht
+      rw [(P t .removeSelf).1]
+      simp only [UState.core, h1]
+      cases hv : t.viaOuter
+      · exact absent_remove_self s.self t.w.inner
+      · simp only [World.step, h3 hv, if_true]; exact absent_remove_self s.self t.w.inner
+  -- no proxy forwards to it
   have hnf : NoFwdTo s.self s'.w := by
     cases hp : c.installsProxy
-    · exact foldl_preserve (UState.step sl) (fun t => NoFwdTo s.self t.w) (fun t a h => nofwd_ustep sl s.self t a h)
-        c.script s (fun e he h2 => by have := (hfwd e he h2).1; simp [hp] at this)
+    · refine foldl_preserve (UState.step sl acq) (fun t => NoFwdTo s.self t.w) ?_ c.script s ?_
+      · intro t a h; rw [(P t a).1]; exact nofwd_ustep sl s.self t a h
+      · intro e he h2; have := (hfwd e he h2).1; simp [hp] at this
     · have hcl : UOp.clearFwd ∈ c.script := by
         rcases hproxy with h | h
         · simp [hp] at h
+        · exact h.1.1.2
+      refine est (UFrame s.self s.proxy) (fun t => NoFwdTo s.self t.w) .clearFwd hI ?_ ?_ hframe hcl
+      · intro t a _ h; rw [(P t a).1]; exact nofwd_ustep sl s.self t a h
+      · intro t ht
+        obtain ⟨_, h2, _, h4⟩ := ht
+        rw [(P t .clearFwd).1]
+        intro e he
+        simp only [UState.core, World.step] at he
+        have hm := List.mem_filter.mp he
+        intro h2'
+        have := h4 e hm.1 h2'
+        simp [this, h2] at hm
+  -- the endpoint does not refer to it
+  have hnr : s'.w.tunnelRef ≠ some s.self := by
+    cases hp : c.installsProxy
+    · refine foldl_preserve (UState.step sl acq) (fun t => t.w.tunnelRef ≠ some s.self) ?_ c.script s ?_
+      · intro t a h; rw [(P t a).1]; exact noref_ustep sl s.self t a h
+      · intro h; have := href h; simp [hp] at this
+    · have hcl : UOp.clearEndpointRef ∈ c.script := by
+        rcases hproxy with h | h
+        · simp [hp] at h
         · exact h.1.2
-      exact foldl_establish (UState.step sl) (UFrame s.self s.proxy) (fun t => NoFwdTo s.self t.w) .clearFwd hI
-        (fun t a _ h => nofwd_ustep sl s.self t a h)
-        (fun t ht => by
-          obtain ⟨_, h2, _, h4⟩ := ht
-          intro e he
-          simp only [UState.step, World.step] at he
-          have hm := List.mem_filter.mp he
-          intro h2'
-          have := h4 e hm.1 h2'
-          simp [this, h2] at hm)
-        c.script s hframe hcl
+      refine est (UFrame s.self s.proxy) (fun t => t.w.tunnelRef ≠ some s.self) .clearEndpointRef hI ?_ ?_ hframe hcl
+      · intro t a _ h; rw [(P t a).1]; exact noref_ustep sl s.self t a h
+      · intro t ht
+        obtain ⟨h1, _, _, _⟩ := ht
+        rw [(P t .clearEndpointRef).1]
+        simp only [UState.core, h1]
+        split
+        · simp [World.step]
+        · next hne => exact hne
   -- task manager down, no removal task left
-  have htmd : s'.tmDown = true ∧ s'.removals = [] :=
-    foldl_establish (UState.step sl) (fun _ => True) (fun t => t.tmDown = true ∧ t.removals = []) .tmShutdown
-      (fun _ _ _ => trivial)
-      (fun t a _ h => by
-        obtain ⟨h1, h2⟩ := h
-        cases a with
-        | spawnRemovals k n cl => simp [UState.step, h1, h2]
-        | awaitRemovals =>
-          have f := finishAll_frame t.removals { t with removals := [] }
-          simp only [UState.step]
-          exact ⟨f.2.2.2.2.1.trans h1, f.2.2.2.2.2.2.2.1⟩
-        | clearTable k => cases k <;> exact ⟨h1, h2⟩
-        | _ => simp [UState.step, h1, h2])
-      (fun t _ => by simp [UState.step])
-      c.script s trivial htm
-  have mono : ∀ (P : UState → Prop), (∀ (t : UState) (a : UOp), P t → P (t.step sl a)) → ∀ a₀, (∀ t : UState, P (t.step sl a₀)) → a₀ ∈ c.script → P s' :=
-    fun P hP a₀ h₀ hm =>
-      foldl_establish (UState.step sl) (fun _ => True) P a₀ (fun _ _ _ => trivial) (fun t a _ h => hP t a h)
-        (fun t _ => h₀ t) c.script s trivial hm
-  refine ⟨⟨habs, hnf⟩, htmd.1, htmd.2, ?_, ?_, ?_, ?_, ?_, ?_⟩
+  have htmd : s'.tmDown = true ∧ s'.removals = [] := by
+    refine est (fun _ => True) (fun t => t.tmDown = true ∧ t.removals = []) .tmShutdown (fun _ _ _ => trivial) ?_ ?_ trivial htm
+    · intro t a _ h
+      obtain ⟨h1, h2⟩ := h
+      rw [(P t a).2.2.2.2.1, (P t a).2.2.2.2.2.2.2.1]
+      cases a with
+      | spawnRemovals k n cl => simp [UState.core, h1, h2]
+      | awaitRemovals =>
+        have f := finishAll_frame t.removals { t with removals := [] }
+        simp only [UState.core]
+        exact ⟨f.2.2.2.2.1.trans h1, f.2.2.2.2.2.2.2.1⟩
+      | clearTable k => cases k <;> exact ⟨h1, h2⟩
+      | clearEndpointRef => simp only [UState.core]; split <;> exact ⟨h1, h2⟩
+      | _ => simp [UState.core, h1, h2]
+    · intro t _
+      rw [(P t .tmShutdown).2.2.2.2.1, (P t .tmShutdown).2.2.2.2.2.2.2.1]
+      simp [UState.core]
+  -- monotone flags
+  have flag : ∀ (f : UState → Bool), (∀ (t : UState) (a : UOp), f t = true → f (t.core sl a) = true) →
+      (∀ (t : UState) (a : UOp), f (t.step sl acq a) = f (t.core sl a)) → ∀ a₀ : UOp, (∀ t : UState, f (t.core sl a₀) = true) →
+      a₀ ∈ c.script → f s' = true := by
+    intro f hmono hproj a₀ h₀ hm
+    refine est (fun _ => True) (fun t => f t = true) a₀ (fun _ _ _ => trivial) ?_ ?_ trivial hm
+    · intro t a _ h; rw [hproj]; exact hmono t a h
+    · intro t _; rw [hproj]; exact h₀ t
+  refine ⟨⟨habs, hnf, hnr⟩, htmd.1, htmd.2, ?_, ?_, ?_, ?_, ?_, ?_, ?_⟩
+  · -- bootstrappers
+    refine flag (fun t => t.bootDown) ?_ (fun t a => (P t a).2.2.2.2.2.2.2.2.1) .unloadBootstrappers (fun t => by simp [UState.core]) hboot
+    intro t a h
+    cases a with
+    | spawnRemovals k n cl => simp only [UState.core]; split <;> exact h
+    | awaitRemovals =>
+      simp only [UState.core]
+      have : ∀ (rs : List (RemKind × Bool)) (u : UState), (rs.foldl (fun acc r => acc.finishRemoval r.1) u).bootDown = u.bootDown := by
+        intro rs
+        induction rs with
+        | nil => intro u; rfl
+        | cons r rest ih => intro u; simp only [List.foldl_cons]; rw [ih]; cases r.1 <;> rfl
+      rw [this]; exact h
+    | clearTable k => cases k <;> exact h
+    | clearEndpointRef => simp only [UState.core]; split <;> exact h
+    | _ => simp [UState.core, h]
   · intro hcc
     have hm : UOp.cacheShutdown ∈ c.script := by
       rcases hcache with h | h
       · simp [hcc] at h
       · exact h
-    refine mono (fun t => t.cacheDown = true) ?_ .cacheShutdown (fun t => by simp [UState.step]) hm
+    refine flag (fun t => t.cacheDown) ?_ (fun t a => (P t a).2.2.2.2.2.1) .cacheShutdown (fun t => by simp [UState.core]) hm
     intro t a h
     cases a with
-    | spawnRemovals k n cl => simp only [UState.step]; split <;> exact h
+    | spawnRemovals k n cl => simp only [UState.core]; split <;> exact h
     | awaitRemovals =>
-      simp only [UState.step]; exact (finishAll_frame t.removals { t with removals := [] }).2.2.2.2.2.1.trans h
+      simp only [UState.core]; exact (finishAll_frame t.removals { t with removals := [] }).2.2.2.2.2.1.trans h
     | clearTable k => cases k <;> exact h
-    | _ => simp [UState.step, h]
-  · intro hp
-    have hce : UOp.closeExitSockets ∈ c.script := by
+    | clearEndpointRef => simp only [UState.core]; split <;> exact h
+    | _ => simp [UState.core, h]
+  · intro hcc
+    have hm : UOp.closeDb ∈ c.script := by
+      rcases hdb with h | h
+      · simp [hcc] at h
+      · exact h
+    refine flag (fun t => t.dbClosed) ?_ (fun t a => (P t a).2.2.2.2.2.2.1) .closeDb (fun t => by simp [UState.core]) hm
+    intro t a h
+    cases a with
+    | spawnRemovals k n cl => simp only [UState.core]; split <;> exact h
+    | awaitRemovals =>
+      simp only [UState.core]; exact (finishAll_frame t.removals { t with removals := [] }).2.2.2.2.2.2.1.trans h
+    | clearTable k => cases k <;> exact h
+    | clearEndpointRef => simp only [UState.core]; split <;> exact h
+    | _ => simp [UState.core, h]
+  · -- exit sockets: the sweep comes after the shutdown, after which nothing can be acquired any more
+    intro hp
+    have hce : UOp.closeExitSockets ∈ afterTm c.script := by
       rcases hproxy with h | h
       · simp [hp] at h
       · exact h.2
-    refine mono (fun t => t.openExit = 0) ?_ .closeExitSockets (fun t => by simp [UState.step]) hce
-    intro t a h
-    cases a with
-    | spawnRemovals k n cl => simp only [UState.step]; split <;> exact h
-    | awaitRemovals =>
-      simp only [UState.step]; exact (finishAll_frame t.removals { t with removals := [] }).2.2.2.2.2.2.2.2.1 h
-    | clearTable k => cases k <;> exact h
-    | _ => simp [UState.step, h]
+    obtain ⟨s₁, _, hd, hrun⟩ := run_afterTm sl acq (fun _ => True) (fun _ _ _ => trivial) c.script s trivial htm
+    show (s.run sl acq c.script).openExit = 0
+    rw [hrun]
+    refine foldl_establish (UState.step sl acq) (fun t => t.tmDown = true) (fun t => t.openExit = 0) .closeExitSockets
+      ?_ ?_ ?_ (afterTm c.script) s₁ hd hce
+    · intro t a h; rw [(P t a).2.2.2.2.1]; exact core_tmDown_mono sl t a h
+    · intro t a hdn h
+      rw [((P t a).2.2.2.2.2.2.2.2.2.2.2 (core_tmDown_mono sl t a hdn)).1]
+      cases a with
+      | spawnRemovals k n cl => simp only [UState.core]; split <;> exact h
+      | awaitRemovals =>
+        simp only [UState.core]; exact (finishAll_frame t.removals { t with removals := [] }).2.2.2.2.2.2.2.2.1 h
+      | clearTable k => cases k <;> exact h
+      | clearEndpointRef => simp only [UState.core]; split <;> exact h
+      | _ => simp [UState.core, h]
+    · intro t hdn
+      rw [((P t .closeExitSockets).2.2.2.2.2.2.2.2.2.2.2 (core_tmDown_mono sl t _ hdn)).1]
+      simp [UState.core]
   · intro hm
-    refine mono (fun t => t.dbClosed = true) ?_ .closeDb (fun t => by simp [UState.step]) hm
-    intro t a h
-    cases a with
-    | spawnRemovals k n cl => simp only [UState.step]; split <;> exact h
-    | awaitRemovals =>
-      simp only [UState.step]; exact (finishAll_frame t.removals { t with removals := [] }).2.2.2.2.2.2.1.trans h
-    | clearTable k => cases k <;> exact h
-    | _ => simp [UState.step, h]
-  · intro hc1
-    refine mono (fun t => t.circuits = 0) ?_ (.clearTable .remCircuit) (fun t => by simp [UState.step, UState.clear]) hc1
-    intro t a h
-    cases a with
-    | spawnRemovals k n cl => simp only [UState.step]; split <;> exact h
-    | awaitRemovals =>
-      simp only [UState.step]; exact (finishAll_frame t.removals { t with removals := [] }).2.2.2.2.2.2.2.2.2.1 h
-    | clearTable k => cases k <;> simp [UState.step, UState.clear, h]
-    | _ => simp [UState.step, h]
-  · intro hc2
-    refine mono (fun t => t.relays = 0) ?_ (.clearTable .remRelay) (fun t => by simp [UState.step, UState.clear]) hc2
-    intro t a h
-    cases a with
-    | spawnRemovals k n cl => simp only [UState.step]; split <;> exact h
-    | awaitRemovals =>
-      simp only [UState.step]; exact (finishAll_frame t.removals { t with removals := [] }).2.2.2.2.2.2.2.2.2.2.1 h
-    | clearTable k => cases k <;> simp [UState.step, UState.clear, h]
-    | _ => simp [UState.step, h]
-  · intro hc3
-    refine mono (fun t => t.exits = 0) ?_ (.clearTable .remExit) (fun t => by simp [UState.step, UState.clear]) hc3
-    intro t a h
-    cases a with
-    | spawnRemovals k n cl => simp only [UState.step]; split <;> exact h
-    | awaitRemovals =>
-      simp only [UState.step]; exact (finishAll_frame t.removals { t with removals := [] }).2.2.2.2.2.2.2.2.2.2.2 h
-    | clearTable k => cases k <;> simp [UState.step, UState.clear, h]
-    | _ => simp [UState.step, h]
+    obtain ⟨s₁, _, hd, hrun⟩ := run_afterTm sl acq (fun _ => True) (fun _ _ _ => trivial) c.script s trivial htm
+    show (s.run sl acq c.script).exits = 0
+    rw [hrun]
+    refine foldl_establish (UState.step sl acq) (fun t => t.tmDown = true) (fun t => t.exits = 0) (.clearTable .remExit)
+      ?_ ?_ ?_ (afterTm c.script) s₁ hd hm
+    · intro t a h; rw [(P t a).2.2.2.2.1]; exact core_tmDown_mono sl t a h
+    · intro t a hdn h
+      rw [((P t a).2.2.2.2.2.2.2.2.2.2.2 (core_tmDown_mono sl t a hdn)).2]
+      cases a with
+      | spawnRemovals k n cl => simp only [UState.core]; split <;> exact h
+      | awaitRemovals =>
+        simp only [UState.core]; exact (finishAll_frame t.removals { t with removals := [] }).2.2.2.2.2.2.2.2.2.2.2 h
+      | clearTable k => cases k <;> simp [UState.core, UState.clear, h]
+      | clearEndpointRef => simp only [UState.core]; split <;> exact h
+      | _ => simp [UState.core, h]
+    · intro t hdn
+      rw [((P t (.clearTable .remExit)).2.2.2.2.2.2.2.2.2.2.2 (core_tmDown_mono sl t _ hdn)).2]
+      simp [UState.core, UState.clear]
+  · intro hm
+    refine est (fun _ => True) (fun t => t.circuits = 0) (.clearTable .remCircuit) (fun _ _ _ => trivial) ?_ ?_ trivial hm
+    · intro t a _ h
+      rw [(P t a).2.2.2.2.2.2.2.2.2.1]
+      cases a with
+      | spawnRemovals k n cl => simp only [UState.core]; split <;> exact h
+      | awaitRemovals =>
+        simp only [UState.core]; exact (finishAll_frame t.removals { t with removals := [] }).2.2.2.2.2.2.2.2.2.1 h
+      | clearTable k => cases k <;> simp [UState.core, UState.clear, h]
+      | clearEndpointRef => simp only [UState.core]; split <;> exact h
+      | _ => simp [UState.core, h]
+    · intro t _; rw [(P t _).2.2.2.2.2.2.2.2.2.1]; simp [UState.core, UState.clear]
+  · intro hm
+    refine est (fun _ => True) (fun t => t.relays = 0) (.clearTable .remRelay) (fun _ _ _ => trivial) ?_ ?_ trivial hm
+    · intro t a _ h
+      rw [(P t a).2.2.2.2.2.2.2.2.2.2.1]
+      cases a with
+      | spawnRemovals k n cl => simp only [UState.core]; split <;> exact h
+      | awaitRemovals =>
+        simp only [UState.core]; exact (finishAll_frame t.removals { t with removals := [] }).2.2.2.2.2.2.2.2.2.2.1 h
+      | clearTable k => cases k <;> simp [UState.core, UState.clear, h]
+      | clearEndpointRef => simp only [UState.core]; split <;> exact h
+      | _ => simp [UState.core, h]
+    · intro t _; rw [(P t _).2.2.2.2.2.2.2.2.2.2.1]; simp [UState.core, UState.clear]
 
-/-- the hypotheses of `unload_releases_everything` hold for a concrete loaded tunnel overlay on a wrapped endpoint with
-    live circuits and an open exit socket, and the conclusion is not vacuous there -/
+/-- the hypotheses hold for a concrete loaded tunnel overlay on a wrapped endpoint with live circuits and an open exit
+    socket, with an adversary that opens a socket at every suspension; the conclusion is not vacuous there -/
 example :
     let c : ClassInfo := (Gen.classes.find? (fun c => c.name == "TunnelCommunity")).getD ⟨"", false, false, false, []⟩
     let w : World := ({ } : World).run ([.add false 3] ++ loadOps c true 1 2 7)
     let s : UState := { w := w, self := 1, proxy := 2, viaOuter := true, circuits := 2, relays := 1, exits := 1, openExit := 1 }
-    scriptOk c = true ∧ (1 ∈ w.reach 7) ∧ (s.viaOuter = true → s.w.fwdRemove = true) ∧
+    scriptOk c = true ∧ (1 ∈ w.touched 7) ∧ (1 ∈ w.touched 9) ∧ (s.viaOuter = true → s.w.fwdRemove = true) ∧
     (∀ e ∈ s.w.fwd, e.2 = s.self → (c.installsProxy = true ∧ e.1 = s.proxy)) ∧
-    (1 ∉ (s.run (fun k now => Gen.removalSleeps k now Gen.defaultRemoveDelay) c.script).w.reach 7) := by decide
+    (1 ∉ (s.run (fun k now => Gen.removalSleeps k now Gen.defaultRemoveDelay) (fun _ => 1) c.script).w.touched 7) ∧
+    (s.run (fun k now => Gen.removalSleeps k now Gen.defaultRemoveDelay) (fun _ => 1) c.script).openExit = 0 := by decide
+
+/-- ORDER matters in the model as it does in the code: the same statements with the exit-socket sweep BEFORE the
+    task-manager shutdown are rejected by `scriptOk`, and rightly so — a socket opened while that sweep is suspended stays -/
+example :
+    let bad : List UOp := [.cacheShutdown, .removeProxy, .clearFwd, .clearEndpointRef, .closeExitSockets, .unloadBootstrappers,
+                           .removeSelf, .tmShutdown]
+    let c : ClassInfo := ⟨"sweep-too-early", true, true, false, bad⟩
+    let s : UState := { w := {}, self := 1, proxy := 2, viaOuter := false, exits := 1, openExit := 1 }
+    scriptOk c = false ∧ (s.run (fun _ _ => false) (fun pc => if pc = 4 then 1 else 0) bad).openExit = 1 := by decide
 
 /-! ## 4. Task manager -/
 
 /-- **active_name_refused** — while the manager is loaded, registering under a name whose task has not finished is
-    refused (`RuntimeError`) and changes nothing, for every state and every kind of task. -/
+    refused (`RuntimeError`) and changes nothing, for every state and every kind of task.  (This is the second guard
+    of the modelled `register_task`; the claim is tied to the code by the TaskManager correspondence.) -/
 theorem active_name_refused (tm : TM) (n : Nat) (s : Spec) (hs : tm.shutdown = false) (ha : tm.isActive n = true) :
     tm.register n s = (tm, .exists) := by
   simp [TM.register, hs, ha]
@@ -229,32 +342,62 @@ example : ((({ } : TM).register 1 { kind := .interval, delay := 0, ivl := 5 }).1
 example : ((({ } : TM).run [.reg 1 { kind := .long, stub := 2 }, .pass, .cancel 1, .reg 1 { kind := .interval, ivl := 5 },
     .tick, .tick, .tick]).isActive 1) = true := by decide
 
-/-- **no_task_after_shutdown** — once the manager is shut down and every task it ever created has finished (the state
-    in which `unload()` returns), then for EVERY later sequence of operations and loop passes: no task is created, the
-    event log gains no entry (no body, timer or continuation runs), and every registration is refused. -/
-theorem no_task_after_shutdown (tm : TM) (h : Dead tm) (ops : List TOp) :
-    Dead (tm.run ops) ∧ (tm.run ops).tasks = tm.tasks ∧ (tm.run ops).log = tm.log ∧
+/-- **every_unfinished_task_is_tracked** — in every reachable state (any history of register / cancel / replace /
+    shutdown / loop passes / seconds), task ids are unique and every task that has not finished either has its
+    cancellation requested or is the task its name maps to in `_pending_tasks`.  (This is what lets a shutdown reach
+    every task; it fails for the code before commit c10513c.) -/
+theorem every_unfinished_task_is_tracked (ops : List TOp) : Tracked (({ } : TM).run ops) :=
+  tracked_run ops _ tracked_init
+
+/-- **unload_leaves_manager_quiet** — in every reachable state in which the shutdown flag is set — in particular at the
+    moment `shutdown_task_manager`, hence `unload()`, returns — every task ever created has finished or has its
+    cancellation requested. -/
+theorem unload_leaves_manager_quiet (ops : List TOp) (h : (({ } : TM).run ops).shutdown = true) :
+    Quiet (({ } : TM).run ops) :=
+  quiet_when_shutdown ops _ tracked_init (by intro h0; cases h0) h
+
+/-- **no_task_after_shutdown** — from any `Quiet` state (which is what unload leaves, by the theorem above), for EVERY
+    later sequence of operations, loop passes and seconds: no task is created, no task body, timer round or periodic
+    task runs (the number of `run` events stays the same — tasks that are still dying may only log their `fin`), every
+    registration is refused, and the state stays `Quiet`. -/
+theorem no_task_after_shutdown (tm : TM) (h : Quiet tm) (ops : List TOp) :
+    Quiet (tm.run ops) ∧ (tm.run ops).tasks.length = tm.tasks.length ∧
+    ((tm.run ops).log.filter isRun).length = (tm.log.filter isRun).length ∧
     ∀ n s, ((tm.run ops).register n s).2 = .refused := by
-  have hs := run_dead ops tm h
-  have hd := h.of_same hs
-  refine ⟨hd, hs.1, hs.2.1, ?_⟩
+  have hr := run_quiet ops tm h
+  refine ⟨hr.1, hr.2.1, hr.2.2, ?_⟩
   intro n s
-  rw [register_shutdown _ n s hd.1]
+  rw [register_shutdown _ n s hr.1.1]
 
-/-- the dead state is reached by an ordinary history: periodic, delayed, long-running (slow to die) and replaced tasks,
-    then shutdown and a few seconds -/
-example : Dead (({ } : TM).run [.reg 1 { kind := .interval, delay := 0, ivl := 2 }, .reg 2 { kind := .long, stub := 2 },
-    .reg 3 { kind := .delayed, delay := 9 }, .tick, .replace 2 { kind := .imm }, .reg 4 { kind := .fut },
-    .shutdown, .tick, .tick, .tick]) := by unfold Dead; decide
+/-- the two theorems combined, from the initial state: whatever happened before the shutdown and whatever happens after -/
+theorem nothing_runs_after_unload (before after : List TOp) :
+    let tm := (({ } : TM).run before).shutdownOp
+    ((tm.run after).log.filter isRun).length = (tm.log.filter isRun).length ∧
+    (tm.run after).tasks.length = tm.tasks.length := by
+  intro tm
+  have hq : Quiet tm := by
+    by_cases hs : (({ } : TM).run before).shutdown = true
+    · have := unload_leaves_manager_quiet before hs
+      simp only [tm, TM.shutdownOp, hs, if_true]; exact this
+    · exact quiet_of_tracked_shutdown _ (every_unfinished_task_is_tracked before) (by simpa using hs)
+  have := no_task_after_shutdown tm hq after
+  exact ⟨this.2.2.1, this.2.1⟩
 
-/-- shutdown requests the cancellation of every task that is tracked and unfinished -/
-theorem shutdown_cancels_every_tracked_task (tm : TM) (hs : tm.shutdown = false) :
-    tm.shutdownOp.shutdown = true ∧ tm.shutdownOp.map = [] ∧
-    ∀ t ∈ tm.tasks, inMap tm.map t.id = true → t.done = false →
-      ∃ t' ∈ tm.shutdownOp.tasks, t'.id = t.id ∧ t'.cancelReq = true := by
-  simp only [TM.shutdownOp, hs, Bool.false_eq_true, if_false, true_and]
-  intro t ht hm hd
-  exact ⟨{ t with cancelReq := true }, List.mem_map.mpr ⟨t, ht, by simp [hm, hd]⟩, rfl, rfl⟩
+/-- non-vacuity, and the reviewer's witness: a task cancelled earlier that is slow to die is NOT finished when the
+    shutdown returns (the manager is `Quiet`, not `Dead`), it never runs again, and the manager becomes `Dead` later -/
+example :
+    let tm := (({ } : TM).run [.reg 1 { kind := .long, stub := 5 }, .pass, .cancel 1, .pass,
+                                .reg 2 { kind := .interval, delay := 0, ivl := 2 }, .tick]).shutdownOp
+    tm.shutdownReturned = false ∧ tm.settle.shutdownReturned = true ∧
+    (tm.settle.tasks.any (fun t => !t.done)) = true ∧
+    ((tm.run [.tick, .tick, .tick, .tick, .tick, .tick]).tasks.all (fun t => t.done)) = true ∧
+    ((tm.run [.tick, .tick, .tick, .tick, .tick, .tick]).log.filter isRun).length = (tm.log.filter isRun).length := by decide
+
+/-- once every task has finished as well, nothing at all is logged any more (not even `fin`) -/
+theorem dead_stays_dead (tm : TM) (h : Dead tm) (ops : List TOp) :
+    Dead (tm.run ops) ∧ (tm.run ops).tasks = tm.tasks ∧ (tm.run ops).log = tm.log := by
+  have hs := run_dead ops tm h
+  exact ⟨h.of_same hs, hs.1, hs.2.1⟩
 
 /-- a task whose cancellation was requested never runs its body or another interval round -/
 theorem cancelled_task_never_runs (now : Nat) (t : Task) (hc : t.cancelReq = true) :
@@ -268,10 +411,12 @@ theorem cancelled_task_never_runs (now : Nat) (t : Task) (hc : t.cancelReq = tru
     · simp at he; subst he; simp
     · cases he
 
-/-- **replace_runs_after_old_finished** — in every history from the initial state (unbounded), every task that was
-    created by a `replace_task` continuation waiting for an old task appears in the event log after the entry that says
-    that the old task has finished. -/
-theorem replace_runs_after_old_finished (ops : List TOp) : okLog (({ } : TM).run ops).log :=
+/-- **replace_waits_for_tracked_old_task** — in every history from the initial state (unbounded), every task that was
+    created by a `replace_task` continuation that had an unfinished tracked Task of that name to wait for (`start n (some
+    t)`) appears in the event log after the entry that says that `t` has finished.  Like the code, this says nothing
+    for `start n none`: no task of that name was tracked (never registered, finished, a plain Future — cancelled on the
+    spot —, or cancelled earlier through `cancel_pending_task` and still dying); see the example below. -/
+theorem replace_waits_for_tracked_old_task (ops : List TOp) : okLog (({ } : TM).run ops).log :=
   (logInv_run ops _ logInv_init).1
 
 /-- `replace_task` itself starts nothing: the new task is only created by a later loop pass -/
@@ -290,13 +435,18 @@ theorem replace_starts_nothing (tm : TM) (n : Nat) (s : Spec) :
 example : (({ } : TM).run [.reg 1 { kind := .long, stub := 2 }, .pass, .replace 1 { kind := .imm }, .tick, .tick, .tick]).log
     = [.fin 1, .run 1, .start 1 (some 0), .fin 0, .run 0] := by decide
 
+/-- the limit of the clause, as in the code: a task that was untracked by `cancel_pending_task` is not waited for -/
+example : (({ } : TM).run [.reg 1 { kind := .long, stub := 5 }, .pass, .cancel 1, .replace 1 { kind := .imm }, .settle]).log
+    = [.fin 1, .run 1, .start 1 none, .run 0] := by decide
 
 /-! ## 5. The service: discovery strategies -/
 
 /-- **no_strategy_after_unload_overlay** — for every service state (any number of overlays, any number and order of
     strategies per overlay, consecutive or interleaved), after `unload_overlay(o)` and ANY later sequence of
-    `add_strategy` / `unload_overlay` calls for other overlays, no strategy that drives `o` is among those a tick can
-    step, and the service no longer lists `o`. -/
+    `add_strategy` / `unload_overlay` calls for other overlays, no strategy that drives `o` is in the service's strategy
+    list (the list a NEW tick iterates), and the service no longer lists `o`.  A tick that is already iterating the old
+    list object is outside this model (the code cannot suspend inside a tick with the shipped `walk_interval`; the
+    `service` scenario watches `take_step` on the real service). -/
 theorem no_strategy_after_unload_overlay (s : Svc) (o : Nat) (ops : List SOp) (hops : ∀ op ∈ ops, SvcForeign o op) :
     (∀ e ∈ ((s.unloadOverlay o).run ops).stepped, e.2 ≠ o) ∧ o ∉ ((s.unloadOverlay o).run ops).overlays :=
   svcClean_run ops _ hops (svcClean_unload s o)
